@@ -121,7 +121,7 @@ pub fn parse(input: &str) -> Result<AisleConf, AisleConfError> {
             line = l;
         }
         // strip whitespace
-        line = line.trim_ascii();
+        line = line.trim();
 
         if line.starts_with('[') && line.ends_with(']') {
             let name = &line[1..line.len() - 1];
